@@ -475,6 +475,17 @@ func (g *gen) fundedID() int {
 }
 func (g *gen) clientKey() key {
 	k := key{g.anyID(), g.r.Intn(6) == 0}
+	if g.r.Intn(4) != 0 { // mostly an address that has no account yet
+		var free []int
+		for i := 1; i <= nAddr; i++ {
+			if !g.w.e.acc.HasAccount(g.w.e.ctx, g.w.addrs[i]) {
+				free = append(free, i)
+			}
+		}
+		if len(free) > 0 {
+			k.id = free[g.r.Intn(len(free))]
+		}
+	}
 	if g.hostile && g.r.Intn(12) == 0 {
 		k.id = -1
 	}
@@ -484,7 +495,19 @@ func (g *gen) clientKey() key {
 	return k
 }
 func (g *gen) licKey() key {
-	if len(g.lic) > 0 && g.r.Intn(5) != 0 {
+	// mostly a key that really carries a licence (or did: re-activation), sometimes another one
+	g.lic = map[key]bool{}
+	for a := 1; a <= nAddr; a++ {
+		for _, up := range []bool{false, true} {
+			k := key{a, up}
+			if _, err := g.w.e.paloma.GetLightNodeClientLicense(g.w.e.ctx, g.w.str(k)); err == nil {
+				g.lic[k] = true
+			} else if _, err := g.w.e.paloma.GetLightNodeClient(g.w.e.ctx, g.w.str(k)); err == nil && g.r.Intn(2) == 0 {
+				g.lic[k] = true
+			}
+		}
+	}
+	if len(g.lic) > 0 && g.r.Intn(6) != 0 {
 		ks := make([]key, 0, len(g.lic))
 		for k := range g.lic {
 			ks = append(ks, k)
@@ -549,15 +572,18 @@ func (g *gen) next() op {
 		return op{kind: "Grant", a: key{g.anyID(), false}, b: key{g.anyID(), false}}
 	case x < 85:
 		return op{kind: "SetFeegranter", a: key{g.anyID(), false}}
-	case x < 89:
+	case x < 88:
 		n := r.Intn(4)
 		l := make([]int, n)
 		for i := range l {
 			l[i] = g.fundedID()
 		}
 		return op{kind: "SetFunders", list: l}
-	case x < 91:
+	case x < 89:
 		var ps [][2]int
+		if r.Intn(3) != 0 {
+			ps = append(ps, [2]int{1, 11})
+		}
 		for i := r.Intn(3); i > 0; i-- {
 			ps = append(ps, [2]int{1 + r.Intn(2), 11 + r.Intn(2)})
 		}
@@ -601,7 +627,7 @@ func runHistory(run *emit.Run, idx int, hostile bool, script *scripted) {
 		}
 	}
 	for i := 1; i <= nAddr && script == nil; i++ {
-		if r.Intn(2) == 0 {
+		if r.Intn(5) < 3 {
 			continue
 		}
 		amt := big.NewInt(int64(1 + r.Intn(6_000_000_000)))
